@@ -305,6 +305,7 @@ def run(ctx, report):
     footer_band(ctx, report)
     relative_list(ctx, report)
     mixed_writers(ctx, report)
+    subdir_with_root(ctx, report)
 
 
 def mixed_writers(ctx, report):
@@ -332,6 +333,39 @@ def mixed_writers(ctx, report):
     except Exception as e:  # noqa
         report.violation({**rec, "what": "opening a list of files of two writers raised " + canon_err(e) + " " + str(e)[:80], "sig": "mixed-writers:raised"})
     report.case(("mixed-writers",), True)
+    shutil.rmtree(wd, ignore_errors=True)
+
+
+def subdir_with_root(ctx, report):
+    """a sub-directory of a hive tree opened with the caller's `root`: the partition columns above it come back, too"""
+    import fastparquet
+    wd = os.path.join(ctx.workdir("c14"), "subroot")
+    shutil.rmtree(wd, ignore_errors=True)
+    rec = {"check": "files", "mode": "subdir-with-root", "shape": "hive", "files": 4}
+    ctx.crumb(rec)
+    try:
+        df = pd.DataFrame({"v": np.arange(8, dtype="int64"), "a": [1, 1, 1, 1, 2, 2, 2, 2], "b": ["x", "x", "y", "y", "x", "x", "y", "y"]})
+        fastparquet.write(wd, df, file_scheme="hive", partition_on=["a", "b"], write_index=False)
+        os.remove(os.path.join(wd, "_metadata"))
+        os.remove(os.path.join(wd, "_common_metadata"))
+        for sub, want_rows in (("a=1", [0, 1, 2, 3]), (os.path.join("a=2", "b=y"), [6, 7])):
+            got = fastparquet.ParquetFile(os.path.join(wd, sub), root=wd).to_pandas()
+            probs = []
+            if sorted(int(x) for x in got["v"]) != want_rows:
+                probs.append(f"rows {sorted(got['v'].tolist())} read, the sub-directory holds {want_rows}")
+            for pc in ("a", "b"):
+                if pc not in got.columns:
+                    probs.append(f"partition column {pc} (a directory level between the given root and the files) is missing")
+                else:
+                    exp = df[df["v"].isin(want_rows)].set_index("v")[pc].astype(str).to_dict()
+                    gotm = {int(v): str(x) for v, x in zip(got["v"], got[pc])}
+                    if gotm != exp:
+                        probs.append(f"partition column {pc} = {gotm}, written {exp}")
+            if probs:
+                report.violation({**rec, "sub": sub, "what": "; ".join(probs)[:300], "sig": "subdir-root:" + sub[:5]})
+    except Exception as e:  # noqa
+        report.violation({**rec, "what": "raised " + canon_err(e) + " " + str(e)[:80], "sig": "subdir-root:raised"})
+    report.case(("subdir-with-root",), True)
     shutil.rmtree(wd, ignore_errors=True)
 
 
